@@ -42,10 +42,22 @@ def main():
     ap.add_argument('--setup', action='store_true')
     ap.add_argument('--all', action='store_true')
     ap.add_argument('--replay')
+    ap.add_argument('--build', nargs='+', help='build the given .v files (relative to theories/) and their closure under the build lock')
+    ap.add_argument('--gen', nargs='+', help='regenerate the given translate targets (e.g. gen_protect) and print the result')
     ap.add_argument('--seed', type=int, default=int(os.environ.get('VERIF_SEED', '20260921')))
     a = ap.parse_args()
     if a.setup:
         sys.exit(setup())
+    if a.gen:
+        ok, msgs, files = core.regenerate(a.gen)
+        print('\n'.join(msgs))
+        sys.exit(0 if ok else 1)
+    if a.build:
+        with core.BuildLock():
+            ok, out, cmd = core.make([f[:-2] + '.vo' for f in a.build])
+        print(out[-6000:])
+        print('BUILD', 'OK' if ok else 'FAILED')
+        sys.exit(0 if ok else 1)
     if a.all:
         man = json.load(open(os.path.join(core.VERIF, 'MANIFEST.json')))
         rc = 0
